@@ -94,8 +94,10 @@ PROPS = {
                      "DL.C07_alias_complete", "DL.C07_photos_absent", "DL.C07_photos_last", "DL.C07_cdecays", "DL.C07_lineshape_pw",
                      "DL.C07_lineshape_repeat", "DL.C07_lsdef_repeat", "DL.C07_lineshape_new", "DL.C07_position_free",
                      "DL.C07_width_given", "DL.C07_width_default", "DL.C07_width_unknown", "DL.dget_pairsToDict",
-                     "DL.C07_jetset_int", "DL.C07_jetset_float", "DL.C07_pythia_num", "DL.C07_pythia_word"],
-        "partial": ["Pythia / JetSet value typing is carried by the correspondence; reference widths come from the installed particle table "
+                     "DL.C07_jetset_int", "DL.C07_jetset_float", "DL.C07_pythia_num", "DL.C07_pythia_word", "DL.C02_text_any"],
+        "modules": ["DL.Props.C01Text"],
+        "partial": ["C02_text_any lifts every statement-level theorem to the text (for documents meeting StmtOK, layouts meeting GoodLayoutD); "
+                    "reference widths come from the installed particle table "
                     "through the harness (exact value of the float, divided by 1000 in the model)"],
         "assumptions": [],
     },
@@ -166,10 +168,13 @@ PROPS = {
     },
     "C06": {
         "harness": "c06",
+        "modules": ["DL.Props.C06Text"],
         "theorems": ["DL.C06_self", "DL.C06_extension", "DL.C06_merge", "DL.C06_published", "DL.C06_published_separators", "DL.C06_boundary",
-                     "DL.C06_reject", "DL.firstMatch_self", "DL.firstMatch_word"],
-        "partial": ["the theorems are about the MODEL_NAME terminal (lexModel) and about parse() on statements; that the LALR parser offers "
-                    "MODEL_NAME before LABEL in model position is tied by the exhaustive correspondence (every published name x contexts)"],
+                     "DL.C06_reject", "DL.firstMatch_self", "DL.firstMatch_word", "DL.C06_text", "DL.C06_text_needs"],
+        "partial": ["C06_text: a decay line whose model word is a registered name is read with exactly that name from every rendering of the "
+                    "line (any registered list, bare / with parameters / with PHOTOS, daughters extending model names), as an instance of the "
+                    "reader round trip; it is about the Lean reader, in which MODEL_NAME is tried before LABEL in model position as Lark does; "
+                    "that correspondence is tied exhaustively (every published name x contexts), not proved"],
         "assumptions": [],
         "gen_obligations": ["C06_published and C06_boundary are decided over the regenerated model list and grammar data"],
     },
@@ -177,7 +182,8 @@ PROPS = {
         "harness": "c17",
         "theorems": ["DL.C17_tables", "DL.C17_parameter_rows", "DL.C17_constant_rows", "DL.C17_option", "DL.C17_option_absent", "DL.C17_coupling",
                      "DL.C17_expand_node", "DL.C17_expand_combinations", "DL.C17_expand_leaf", "DL.C17_expand_replace", "DL.C17_policy", "DL.C17_read_simple", "DL.C17_read_layout", "DL.C17_layout_irrelevant", "DL.C17_readAmp_layout_mapM",
-                     "DL.C17_readAmp_layout", "DL.C17_readAmp_simple", "DL.C17_exPlain", "DL.C17_exFancy", "DL.C17_exFancy_exPlain"],
+                     "DL.C17_readAmp_layout", "DL.C17_readAmp_simple", "DL.C17_exPlain", "DL.C17_exFancy", "DL.C17_exFancy_exPlain",
+                     "DL.C17_text", "DL.C17_text_layout"],
         "partial": ["the reading of the options text into statements is modelled by the scannerless reader DL/Model/AmpRead.lean (readAmpText / readAmp) "
                     "and tied to Lark on the repository's grammar on every run (well-formed, malformed and fixed edge-case texts, accept/reject and "
                     "statements); C17_read_layout: that reader returns the statement list from every rendering under a good layout (blank runs, also "
